@@ -58,6 +58,9 @@ func checkC20(c *Ctx) {
 	c.Rule("C20-R9", "ViewPort.Resize clips the request against the parent's current size every time (no shortcut for unchanged arguments: the parent may have changed)")
 	c.Expect("C20-R9", 1)
 	checkResizeAlwaysClips(c, p, "C20-R9", vp)
+	c.Rule("C20-R10", "everything a ViewPort paints goes through its parent's SetContent at translated coordinates: the only other thing it asks its parent is its size (a parent Fill or Clear paints the parent's whole window, whatever the port's origin or the parent's scroll offset)")
+	c.Expect("C20-R10", 1)
+	checkViewPortPaintsThroughSetContent(c, p, "C20-R10")
 	bl := methods(blOwner)
 	if len(vp) < 15 || len(bl) < 10 {
 		c.Undecided("C20-R1", "methods", "-", fmt.Sprintf("found %d ViewPort and %d BoxLayout methods", len(vp), len(bl)))
